@@ -20,6 +20,7 @@ import (
 	_ "github.com/google/pprof/verif/checks/c16"
 	_ "github.com/google/pprof/verif/checks/c17"
 	_ "github.com/google/pprof/verif/checks/c18"
+	_ "github.com/google/pprof/verif/checks/c19"
 	"github.com/google/pprof/verif/internal/harness"
 )
 
